@@ -15,7 +15,7 @@ package plugin
 //@ pred dialable(a) := a != nil && (typeis(a, "*net.TCPAddr") ==> unbox(a, "*net.TCPAddr") != nil) && (typeis(a, "*net.UnixAddr") ==> unbox(a, "*net.UnixAddr") != nil)
 //@ pred valid_client(c) := c.config != nil && c.logger != nil && c.config.Stderr != nil && c.config.SyncStdout != nil && c.config.SyncStderr != nil && c.config.AllowedProtocols != nil
 //@ pred valid_reattach(c) := c.config.Reattach != nil ==> dialable(c.config.Reattach.Addr)
-//@ pred inv_client(c) := (c.address != nil ==> dialable(c.address)) && launched[c] >= 0 && launched[c] <= 1 && (launched[c] == 1 && c.config.Cmd != nil ==> c.config.Cmd.Stdout != nil) && (c.client != nil ==> c.address != nil && (c.protocol == "netrpc" || c.protocol == "grpc"))
+//@ pred inv_client(c) := (c.address != nil ==> dialable(c.address)) && launched[c] >= 0 && launched[c] <= 1 && (launched[c] == 1 && c.config.Cmd != nil ==> c.config.Cmd.Stdout != nil) && (c.client != nil ==> c.address != nil && (c.protocol == "netrpc" || c.protocol == "grpc")) && (c.address != nil ==> c.doneCtx != nil)
 
 //@ type Client
 //@   guarded_by l: exited, runner, client, processKilled, address, ghost:launched   [C20.guard] [C19.once]
@@ -258,6 +258,7 @@ package plugin
 //@   ensures result1 == nil && cl0 != nil && a0 != nil ==> result0 == cl0   [C19.client]
 //@   ensures result1 == nil ==> result0 != nil && result0 == c.client   [C19.client]
 //@   ensures result1 != nil ==> result0 == nil   [C19.client]
+//@   ensures result1 == nil ==> c.doneCtx != nil   [C03.a]
 //@   ensures result1 == nil ==> c.protocol == "netrpc" || c.protocol == "grpc"   [C14.allowed]
 
 //@ func (*Client).Protocol
@@ -292,6 +293,7 @@ package plugin
 //@   ensures held(c.l)
 //@   ensures result1 != nil ==> result0 == nil && c.address == nil && c.runner == old(c.runner)   [C15.rt]
 //@   ensures result1 == nil ==> result0 == c.config.Reattach.Addr && c.address == result0   [C15.rt]
+//@   ensures result1 == nil ==> c.doneCtx != nil   [C03.a]
 //@   ensures result1 == nil ==> c.protocol == ite(c.config.Reattach.Protocol == "", "netrpc", c.config.Reattach.Protocol)   [C15.rt]
 //@   ensures result1 == nil && !c.config.Reattach.Test ==> c.runner == attached   [C15.kill]
 //@   ensures result1 == nil && c.config.Reattach.Test ==> c.runner == old(c.runner) && c.negotiatedVersion == c.config.Reattach.ProtocolVersion   [C15.kill]
@@ -323,7 +325,7 @@ package plugin
 //@   at call (*sync.Mutex).Unlock#1 bind r0: Iface := c.runner
 //@   at call (*sync.Mutex).Unlock#1 bind ak: Iface := c.address
 //@   at call (*sync.Mutex).Unlock#1 bind d0: Str := c.unixSocketCfg.socketDir
-//@   after select#1 set grace := index == 0
+//@   after select#2 set grace := index == 0
 //@   ensures !held(c.l)   [C19.lock]
 //@   ensures launches == old(launches) && rf_calls == old(rf_calls)   [C19.kill]
 //@   ensures r0 == nil || runner_id(r0) == "" ==> kills == old(kills) && removed == old(removed) && waited == old(waited) && launches == old(launches)   [C04.noop]
@@ -331,6 +333,14 @@ package plugin
 //@   ensures r0 != nil && runner_id(r0) != "" ==> grace || kills[r0] >= old(kills)[r0] + 1   [C04.end]
 //@   ensures grace ==> kills[r0] == old(kills)[r0]   [C04.grace]
 //@   ensures r0 != nil && runner_id(r0) != "" && ak == nil ==> kills[r0] >= old(kills)[r0] + 1   [C04.force] [C05.c]
+
+//@ func (*Client).Kill$2
+//@   spawn_inline
+//@   nopanic [C04.idem]
+//@   bounded peer-dead [C04.bounded]
+//@   requires client != nil && closed != nil
+//@   wait send#1 the channel has capacity 1 and this is its only send: it never blocks
+//@   at send#1 assert chan == closed   [C04.bounded]
 
 //@ ghost cc_spawned: Int
 
